@@ -120,6 +120,26 @@ def rule_chkeff(ctx: Ctx) -> RuleResult:
                 res.ok(f"create: `{norm(w)}`", "creates the ancestors too")
             else:
                 res.violation([cr.qualname, "mkdir", "parents"], "create: a folder entity is created without its ancestors", cr.relpath, w.lineno)
+    # a path with a suffix is created as a file, one without as a folder
+    sfx = None
+    for d in flow_of(cr.node).all_defs:
+        if d.kind == "assign" and d.value is not None and norm(d.value).endswith(".suffix"):
+            sfx = d.var
+    for w in _write_nodes(cr):
+        nm = dotted(w.func) or ""
+        is_file = nm in ("shutil.copy2", "shutil.copy", "shutil.copyfile") or (isinstance(w.func, ast.Attribute) and w.func.attr == "touch")
+        is_dir = isinstance(w.func, ast.Attribute) and w.func.attr == "mkdir" and "parent" not in norm(w.func.value)
+        if not (is_file or is_dir):
+            continue
+        fs = facts_at(ctx, cr, w)
+        has = {truth for t, truth in fs if t == sfx or t.endswith(".suffix")}
+        want = is_file
+        if has == {want}:
+            res.ok(f"create: `{norm(w)[:40]}`", f"a path {'with' if want else 'without'} suffix is created as a {'file' if want else 'folder'}")
+        elif has:
+            res.violation([cr.qualname, norm(w.func), "kind of entity"], f"create: `{norm(w)[:50]}` runs for a path "
+                                                                         f"{'without' if want else 'with'} a suffix: a file entity is created as a folder "
+                                                                         f"(or the reverse)", cr.relpath, w.lineno)
     cp = ctx.p.function("spil.sid.pathops.write_paths._create_parent")
     if any(isinstance(n, ast.Call) and isinstance(n.func, ast.Attribute) and n.func.attr == "mkdir" and any(
             k.arg == "parents" and norm(k.value) == "True" for k in n.keywords) and ntext(cp, n.func.value, n) == f"{cp.params[0]}.parent"
